@@ -1425,7 +1425,7 @@ def run(ctx):
     ctx.assumptions += ["channel ids are not reused within a history (C23)",
                         "recv sizes are non-negative"]
     ctx.prove()
-    scale = 8 if ctx.thorough else 1
+    scale = 6 if ctx.thorough else 1
 
     def section(name, fn):
         """Each part runs on its own: a failure of one (translator, model, fail-closed AST cut) never stops
